@@ -12,7 +12,7 @@ from harness import tlc
 from harness.common import Machinery
 from checks import c05, c05_gen
 
-ENUM_CFG = ("INIT C07EnumInit\nNEXT C07LongNext\nCONSTRAINT C07EnumEmit\nINVARIANT Invariants\nINVARIANT EnumTerminates\n"
+ENUM_CFG = ("INIT C07EnumInit\nNEXT C07EnumNext\nCONSTRAINT C07EnumEmit\nINVARIANT Invariants\nINVARIANT EnumTerminates\n"
             "PROPERTY LogAppendOnly\nPROPERTY CatchGetsThrown\nCHECK_DEADLOCK FALSE\n")
 # records of family RP are marked `rounds`: C07JudgeNext runs them k steps per transition under the larger step bound
 JUDGE_NEXT = "NEXT C07JudgeNext"
